@@ -41,11 +41,12 @@ class LoopInv:
 
 
 class ClassSchema:
-    def __init__(self, name, module, fields, invariant=None, record=False, keys=None):
+    def __init__(self, name, module, fields, invariant=None, record=False, keys=None, abstract=False):
         self.name = name
         self.module = module
         self.fields = fields          # name -> kind string
         self.record = record          # JSON-like dict accessed by x['key']
+        self.abstract = abstract      # no direct instances
         self.kinds = {}
 
     def kind(self, reg, f):
@@ -111,7 +112,10 @@ class Registry:
         import z3
         ks = [self.kind(a) for a in argkinds]
         rk = self.kind(retkind)
-        f = z3.Function(name, *([k.sorts()[0] for k in ks] + [rk.sorts()[0]]))
+        doms = []
+        for k in ks:
+            doms += k.sorts()            # multi-leaf arguments (lists, vectors) are flattened
+        f = z3.Function(name, *(doms + [rk.sorts()[0]]))
         self.ufuncs[name] = (f, ks, rk)
 
     def fold(self, name, over, term, params=(), ret='Real'):
